@@ -23,6 +23,7 @@ class DirectTask:
         self.spin_mark = -1.0
         self.spin_n = 0
         self.spun = False
+        self.in_py_tick = False
         self.timeout_at = None
         self.timeout_obj = None
         self.greenlet = False
